@@ -144,3 +144,16 @@ theorem empty_side (ext : Ext) :
   simp [this]
 
 end UF.H
+
+namespace UF.H
+open Bytes
+
+def c17Ext : Ext where
+  psl := fun h =>
+    if hasSuffix h (lit "co.uk") then (lit "co.uk", true)
+    else if hasSuffix h (lit "com") then (lit "com", true) else ([], false)
+  parseAddr := fun _ => none
+  parsePrefix := fun _ => none
+  pat := fun _ _ _ => false
+
+end UF.H
